@@ -83,6 +83,10 @@ impl LazyBigint {
             // shortcut, if std will work we use that
             Ok(v) => Ok(LazyBigint::from(v)),
             Err(e) => match e.kind() {
+                // the wide parser would accept digit separators, which the narrow one rejects
+                IntErrorKind::PosOverflow | IntErrorKind::NegOverflow if s.contains('_') => Err(
+                    Either::Left(i128::from_str_radix("_", radix).unwrap_err()),
+                ),
                 IntErrorKind::PosOverflow | IntErrorKind::NegOverflow => Ok(LazyBigint::from(
                     BigInt::from_str_radix(s, radix).map_err(Either::Right)?,
                 )),
